@@ -34,13 +34,25 @@ Definition is_env (o : Op) : bool :=
   end.
 
 (* ---------- C01 custody ---------- *)
+(* distribution rewards of denom [d] that the operation may withdraw into the custody account
+   (recorded by the harness from the real distribution module, see EOracle) *)
+Definition pending_wd (s : State) (d : Z) : Z :=
+  fold_right (fun w acc => camount (snd w) d + acc) 0 (oracle s).
+
 Definition check_C01 (pre : State) (o : Op) (c : Z) (post : State) : list Z :=
   flat_map (fun d =>
     clause 1 (0 <=? slack post d)                                   (* never short *)
     (* no silent drift; virtual staking tokens and staking-denom rewards pass through the
        custody account and are swept every block (C11), the staking denom itself cannot be an
        alliance asset, so only the shortfall clause is meaningful for it *)
-    ++ (if is_env o || (d =? BOND_DENOM) then [] else clause 2 (slack post d =? slack pre d)))
+    ++ (if is_env o || (d =? BOND_DENOM) then [] else
+        let drift := slack post d - slack pre d in
+        clause 2 (0 <=? drift)                                       (* a margin is never eaten into *)
+        (* the only source of an excess inside a module operation is a distribution withdrawal
+           that is not forwarded to the reward pool (F-C01-1): bounded by what was withdrawn ... *)
+        ++ clause 21 (drift <=? pending_wd pre d)
+        (* ... and the exact statement of the property: no drift at all *)
+        ++ clause 23 (drift =? 0)))
     (nodup_z (denoms_of pre ++ denoms_of post)).
 
 (* ---------- C02 / C15 queue and index bookkeeping ---------- *)
